@@ -443,7 +443,25 @@ func c12Real(t *testing.T, run *Run, sc c12Scenario) {
 		return
 	}
 	got, e3 := view(u)
+	// life goes on after the crash: the next command that returns must be in the file (whatever the
+	// crash left behind in the state directory must not get in its way)
+	followOut, followCode := u.CLI("deploy", "s9", "--target", a1, "--host", "nine.example")
+	followState := normState(u.StatePath())
 	u.Stop()
+	if e3 == "" && followCode == 0 && !strings.Contains(followState, `"name":"s9"`) {
+		sig := "crash:next-command-not-saved"
+		if sc.Part == "strace" {
+			sig += ":strace:" + sc.Sys
+		} else {
+			sig += ":" + sc.Point
+		}
+		fail(sig, "%s during `%s`, restart, then `deploy s9` returned successfully: the state file does not contain s9 (%s)", what, strings.Join(cmd, " "), trunc(followState, 200))
+		return
+	}
+	if followCode != 0 {
+		run.Count("follow_up_command_failed", 1)
+		_ = followOut
+	}
 	if e3 != "" {
 		run.Inconclusive("list after restart: %s", e3)
 		return
